@@ -37,7 +37,7 @@ type rwCore struct {
 	status   int // first status received; 0 = nothing sent
 	accepted int
 	calls    []string
-	mode     int // 0 accepts all, 1 accepts fewer bytes, 2 fails on the second body write
+	mode     int // 0 accepts all, 1 accepts fewer bytes, 2 fails on the second body write, 3 partial write + error
 	writes   int
 }
 
@@ -66,6 +66,14 @@ func (c *rwCore) accept(n int) (int, error) {
 		if c.writes >= 2 {
 			zsim.Fault("rw_error")
 			return 0, errors.New("connection reset")
+		}
+	case 3:
+		// the write fails after part of it was accepted: (n>0, err)
+		if c.writes >= 2 && n > 1 {
+			zsim.Fault("rw_partial_then_error")
+			n = n / 2
+			c.accepted += n
+			return n, errors.New("connection reset after a partial write")
 		}
 	}
 	c.accepted += n
@@ -309,7 +317,7 @@ func (c18World) Run(prop string, ch *zsim.Choices, trace bool) *RunResult {
 			req.Header.Set("Referer", fmt.Sprintf("http://ref%d/", i))
 			req.Header.Set("X-Custom", fmt.Sprintf("custom-%d", i))
 			req.Proto = []string{"HTTP/1.1", "HTTP/2.0", "HTTP/1.0"}[i%3]
-			q := &c18Req{i: i, req: req, rwMode: ch.Weighted(3, 1, 1), rwKind: ch.Intn(3)}
+			q := &c18Req{i: i, req: req, rwMode: ch.Weighted(3, 1, 1, 1), rwKind: ch.Intn(3)}
 			if ch.Chance(1, 2) {
 				// a request id supplied by the caller; otherwise RequestIDHandler makes one up
 				if id, err := xid.FromString(fmt.Sprintf("9m4e2mr0ui3e8a2%d0000", i)); err == nil {
